@@ -276,6 +276,9 @@ def run_closed(spec, rec, dadi):
 CALL_SRC = r'''
 import sys, json, numpy as np, logging, warnings
 warnings.filterwarnings("ignore"); logging.disable(logging.WARNING); np.seterr(all="ignore")
+sys.path.insert(0, %(here)r)
+from vf import reach
+reach.install()
 import dadi
 from dadi import Godambe
 sys.path.insert(0, %(here)r)
